@@ -100,7 +100,8 @@ def _mk_fixed(w):
                              [("wrong base", "powers = 10**np.arange(number_text.shape[-1])[::-1]", "powers = 9**np.arange(number_text.shape[-1])[::-1] + 1")])
 
 
-CONTRACTS += [_mk_fixed(w) for w in (1, 2, 7, 19)]
+from contracts import thorough as _thorough      # noqa: E402
+CONTRACTS += [_mk_fixed(w) for w in ((1, 2, 7, 19) if not _thorough() else (1, 2, 3, 4, 5, 7, 10, 13, 16, 18, 19))]
 
 
 # --- _build_power_array(shape) without decimal points: the power table of a ragged batch of digit strings ------------------------------------------
@@ -262,3 +263,64 @@ ints_to_strings = Contract("C18.ints_to_strings", target=_i2s, setup=_setup_i2s,
                                      ("no room for the sign", "shape = RaggedShape(lengths+is_negative)", "shape = RaggedShape(lengths)"),
                                      ("digits of the signed value", "digits = np.abs(number)[:, np.newaxis] // 10**ragged_index % 10", "digits = number[:, np.newaxis] // 10**ragged_index % 10")])
 CONTRACTS.append(ints_to_strings)
+
+
+# --- TextBufferExtractor.get_digit_array: the dispatcher in front of the fixed-width digit matrix ---------------------------------------------------
+# The digit matrix (whose contract above needs digits only) is chosen ONLY when no field of the column starts with '+' or '-'; otherwise the text of the
+# column goes on together with the two sign masks, each row's mask telling what ITS field starts with.
+def _TBE():
+    from bionumpy.io.file_buffers import TextBufferExtractor
+    return TextBufferExtractor
+
+
+def _setup_gda(ctx):
+    st = St()
+    st.n, st.nf, st.N, st.f = z3.Int("n_rows"), z3.Int("n_fields"), z3.Int("n_bytes"), z3.Int("field")
+    st.D = z3.Function("byte", z3.IntSort(), z3.IntSort())
+    fs2, fl2 = z3.Function("field_start", z3.IntSort(), z3.IntSort(), z3.IntSort()), z3.Function("field_len", z3.IntSort(), z3.IntSort(), z3.IntSort())
+    st.fsf, st.flf = z3.Function("start_in_the_column", z3.IntSort(), z3.IntSort()), z3.Function("len_in_the_column", z3.IntSort(), z3.IntSort())
+    st.fs = lambda i, j: Ite(I(j) == st.f, st.fsf(I(i)), fs2(I(i), I(j)))
+    st.fl = lambda i, j: Ite(I(j) == st.f, st.flf(I(i)), fl2(I(i), I(j)))
+    st.selfv = SRec(_TBE(), _data=SArr.fresh(st.N, lambda p: st.D(I(p)), enc="BaseEncoding"),
+                    _field_starts=SArr2.fresh(st.n, st.nf, lambda i, j: st.fs(I(i), I(j))), _field_lens=SArr2.fresh(st.n, st.nf, lambda i, j: st.fl(I(i), I(j))), _n_fields=st.nf)
+    st.args = [st.f]
+    st.moved = None
+    st.text = Opaque("text of the column (get_field_by_number)")
+    _hg["st"] = st
+    return st
+
+
+_hg = {}
+
+
+def _moved(ip, args, kwargs, lineno):
+    st = _hg["st"]
+    st.moved = (list(args), dict(kwargs))
+    return Opaque("digit matrix")
+
+
+def _ens_gda(ctx, st, ret):
+    first = lambda i: st.D(st.fsf(I(i)))
+    a, neg, pos = ret
+    if neg is None and pos is None:
+        m = st.moved
+        ok = m is not None and len(m[0]) == 3
+        return [("digit.matrix.only.when.no.field.starts.with.a.sign", Forall(lambda i: Implies(in_range(i, st.n), And(first(i) != 45, first(i) != 43)))),
+                ("the.matrix.is.built.from.this.column's.fields", ok and m[0][0] is st.selfv.get("_data") and m[1].get("fill_value") == "0"),
+                ("field.bounds", ok and Forall(lambda i: Implies(in_range(i, st.n), And(I(m[0][1].at(i)) == st.fsf(i), I(m[0][2].at(i)) == st.fsf(i) + st.flf(i)))))]
+    return [("signed.path: the column's text goes on", a is st.text),
+            ("is_negative.tells.what.each.row's.field.starts.with", Forall(lambda i: Implies(in_range(i, st.n), B(neg.at(i)) == (first(i) == 45)))),
+            ("is_positive.tells.what.each.row's.field.starts.with", Forall(lambda i: Implies(in_range(i, st.n), B(pos.at(i)) == (first(i) == 43)))),
+            ("mask.lengths", And(I(neg.length) == st.n, I(pos.length) == st.n))]
+
+
+def mk_digit_dispatch(prefix):
+    return Contract("%s.TextBufferExtractor.get_digit_array" % prefix, target=lambda: _TBE().get_digit_array, setup=_setup_gda,
+                                requires=lambda ctx, st: [st.n >= 0, st.nf >= 1, in_range(st.f, st.nf), st.N >= 0,
+                                                          Forall(lambda i: Implies(in_range(i, st.n), in_range(st.fsf(i), st.N)), triggers=[st.fsf], name="field starts inside the data")],
+                                ensures=_ens_gda,
+                                callees={"bionumpy.io.file_buffers.move_intervals_to_digit_array": _moved,
+                                         "bionumpy.io.file_buffers.TextBufferExtractor.get_field_by_number": lambda ip, args, kwargs, lineno: _hg["st"].text},
+                                canaries=[("'+' columns sent down the digit-matrix path", "if np.any(is_negative) or np.any(is_positive):", "if np.any(is_negative):"),
+                                          ("positive mask is the negative one", 'is_positive = possible_signs == "+"', 'is_positive = possible_signs == "-"')])
+CONTRACTS.append(mk_digit_dispatch("C18"))
